@@ -314,7 +314,24 @@ func init() {
 	} {
 		intrinsics[n] = nop
 	}
-	intrinsics["github.com/gookit/goutil.FuncName"] = func(fr *frame, args []value) value { return "func" }
+	// the name of a function value: one name per piece of code (function,
+	// function literal, bound method), as runtime.FuncForPC gives it up to the
+	// compiler's spelling; two closures of one literal share their name
+	intrinsics["github.com/gookit/goutil.FuncName"] = func(fr *frame, args []value) value {
+		v := args[0]
+		if a, ok := v.(iface); ok {
+			v = a.v
+		}
+		switch f := v.(type) {
+		case *ssa.Function:
+			return f.String()
+		case *closure:
+			return f.Fn.String()
+		case *boundMethod:
+			return f.fn.String() + "-fm"
+		}
+		return "func"
+	}
 	intrinsics["github.com/gookit/goutil.Panicf"] = func(fr *frame, args []value) value {
 		msg := sprintfLike(concStr(fr, args[0], "Panicf format"), args[1].([]value))
 		panic(targetPanic{iface{types_String, msg}})
@@ -392,6 +409,20 @@ func init() {
 		ex := fr.ex()
 		useFree := len(st.free) > 0
 
+		if c := fr.i.conc; useFree && c != nil && c.on && c.thread > 0 {
+			// an in-flight request may receive any object Put back so far, or a new one:
+			// every alternative is its own schedule (path)
+			k := ex.chooseFree(len(st.free) + 1)
+			if k > 0 {
+				idx := len(st.free) - k
+				v := st.free[idx]
+				st.free = append(st.free[:idx:idx], st.free[idx+1:]...)
+				ex.stats.Covers["pool: context reused"]++
+				fr.i.poolGet(v)
+				return v
+			}
+			useFree = false
+		}
 		if useFree && ex.poolMode == 1 {
 			// fork: reuse the pooled object or build a fresh one
 			useFree = ex.chooseFree(2) == 0
